@@ -43,7 +43,13 @@ def main(argv=None):
 
     if a.replay:
         data = json.load(open(a.replay))
-        r = mod.replay(ctx, data)
+        w = (data.get("witness") or {}).get("witness") or {}
+        if isinstance(w, dict) and w.get("script"):   # a regression witness of a repaired defect: re-run the script
+            import subprocess
+            p = subprocess.run([sys.executable, os.path.join(common.VERIF, w["script"])], capture_output=True, text=True)
+            r = {"still_failing": p.returncode != 0, "what": (p.stdout + p.stderr)[-600:]}
+        else:
+            r = mod.replay(ctx, data)
         print(json.dumps(r, indent=1, default=str))
         return 1 if r.get("still_failing") else 0
 
